@@ -74,6 +74,10 @@ def lattice(tier):
             for sgn in (1.0, -1.0):
                 out.append(dict(off=(0.5, 0.0, 0.0), att=(0.0, (0, 0, 1.0), 1), v=(0.0, 0.0, 0.0), w=(0.0, 0.0, 0.0), yaw=ysp, mode=mode,
                                 target=targets[0], literal_q=[0.0, 0.0, 0.0, sgn]))
+    # the plant advanced through the model's integrator interface (model["dae"] with cvodes) instead of RK4 on model["f"]
+    for mode in modes:
+        for ysp in (0.0, 0.5):
+            out.append(dict(off=(1.5, -1.5, 1.5), att=(math.radians(30.0), (1.0, 0, 0), 1), v=(1.0, -1.0, 0.5), w=(1.0, -1.0, 0.5), yaw=ysp, mode=mode, target=targets[0], plant="dae"))
     return out
 
 
@@ -112,9 +116,9 @@ def explore(case):
     res.count("evaluations")
     if any(cfg["off"]) or th or any(cfg["v"]) or any(cfg["w"]):
         res.nontrivial.add(hash(str(cfg)))
-    cls = "%s;yaw=%g" % (cfg["mode"], cfg["yaw"]) + (";ground_start" if cfg.get("ground") else "") + (";literal_half_turn" if cfg.get("literal_q") else "")
+    cls = "%s;yaw=%g" % (cfg["mode"], cfg["yaw"]) + (";ground_start" if cfg.get("ground") else "") + (";literal_half_turn" if cfg.get("literal_q") else "") + (";dae_cvodes" if cfg.get("plant") == "dae" else "")
     try:
-        r = loop17.run(cfg["mode"], x0, TARGET, cfg["yaw"], tf)
+        r = loop17.run(cfg["mode"], x0, TARGET, cfg["yaw"], tf, plant=cfg.get("plant", "rk4"))
     except Exception as ex:
         res.fail(site="closed_loop", clause="no_exception", cls=cls, detail=dict(cfg=cfg, error="%s: %s" % (type(ex).__name__, str(ex)[:300])), sub="loop", case=case)
         return res
